@@ -42,10 +42,10 @@ def _recs(recs):
 STEP_BUDGET = 3_000_000
 
 
-def child_construct(root, cfg, recs, probes, fault):
+def child_construct(root, cfg, recs, probes, fault, now_ns=None):
     from parglare import GLRParser, Grammar, Parser
 
-    seam = WriteSeam(root, fault)
+    seam = WriteSeam(root, fault, now_ns)
     seam.install()
     clock = StepClock(STEP_BUDGET).start()
     roots = (root,)
@@ -90,10 +90,10 @@ def child_construct(root, cfg, recs, probes, fault):
     return fin()
 
 
-def child_compile(root, ps, pse, fault):
+def child_compile(root, ps, pse, fault, now_ns=None):
     from parglare.cli import compile_get_grammar_table
 
-    seam = WriteSeam(root, fault)
+    seam = WriteSeam(root, fault, now_ns)
     seam.install()
     out = {"op": "compile"}
 
@@ -363,9 +363,11 @@ def execute(spec, ops, workdir, cold, stats=None, log=None):
                     if fault is not None:
                         op["fault"] = fault  # resolved offset becomes part of the history
                 if kind == "construct":
-                    st, out = fork_call(child_construct, sim.path, cfg, recs, probes, fault)
+                    st, out = fork_call(child_construct, sim.path, cfg, recs, probes, fault,
+                                        sim.clock_ns)
                 else:
-                    st, out = fork_call(child_compile, sim.path, op["ps"], op["pse"], fault)
+                    st, out = fork_call(child_compile, sim.path, op["ps"], op["pse"], fault,
+                                        sim.clock_ns)
                 if st == "timeout":
                     raise HarnessError("simulated process timed out")
                 if st in ("harness", "died"):
@@ -548,16 +550,36 @@ def effective(cfg):
     }
 
 
-def gen_pge(rng, sc, n=4):
-    exs = []
-    for k in range(n):
-        text, info = pool.gen_input(rng, sc, version=0, p_damage=1.0, max_faults=1,
-                                    kinds=["drop", "dup", "junk", "trunc_tok", "subst"])
-        if not text.strip() or "\n=====" in text:
-            continue
-        la = rng.choice([":::", ":::+"])
-        exs.append(f"{text}\n{la}\nhint number {k}\n")
-    return "\n=====\n".join(exs) if exs else None
+def gen_pge(rng, sc, n=3):
+    """Error examples with hints.  Returns (pge text, example inputs): a few
+    randomly damaged sentences, plus - for up to three literal terminals of the
+    grammar - a sentence in which that terminal is doubled, in lookahead mode, so
+    that the NAME of the offending token becomes part of a compiled hint key."""
+    exs, inputs = [], []
+    m = sc["models"][0]
+
+    def add(text, la):
+        if not text.strip() or "\n=====" in text or "\n:::" in text:
+            return
+        exs.append(f"{text}\n{la}\nhint number {len(exs)}\n")
+        inputs.append(text)
+
+    for _ in range(n):
+        text, _info = pool.gen_input(rng, sc, version=0, p_damage=1.0, max_faults=1,
+                                     kinds=["drop", "dup", "junk", "trunc_tok", "subst"])
+        add(text, rng.choice([":::", ":::+"]))
+    lits = [t.name for t in m.terms.values() if t.kind == "str"]
+    rng.shuffle(lits)
+    for name in lits[:3]:
+        for _try in range(6):
+            toks = m.sentence(rng, depth=rng.randint(1, 3))[:12]
+            idx = [i for i, (tn, _) in enumerate(toks) if tn == name]
+            if idx:
+                i = rng.choice(idx)
+                toks = toks[: i + 1] + [toks[i]] + toks[i + 1:]
+                add(pool.layout_tokens(rng, toks, sc["layout"], fancy=0.0), ":::+")
+                break
+    return ("\n=====\n".join(exs) if exs else None), inputs
 
 
 def gen_dt(rng):
@@ -579,6 +601,8 @@ def gen_run(rng, tier):
         versions = sc["versions"]
         probes = list(sc["probes"])
         pge = sc["pge"] if rng.random() < 0.8 else None
+        if pge:
+            probes += [b.split("\n:::")[0] for b in pge.split("\n=====\n")]
         recognizers = None
         fam = sc["family"]
     else:
@@ -595,7 +619,11 @@ def gen_run(rng, tier):
             probes.append(pool.gen_input(rng, sc, version=v, p_damage=0.0)[0])
         while len(probes) < 10:
             probes.append(pool.gen_input(rng, sc, p_damage=0.6)[0])
-        pge = gen_pge(rng, sc) if rng.random() < 0.5 else None
+        pge = None
+        if rng.random() < 0.5:
+            pge, ex_inputs = gen_pge(rng, sc)
+            # every compiled hint is looked up by at least one probe
+            probes += ex_inputs
         fam = sc["family"]
     spec = {"family": fam, "versions": versions, "pge": pge, "recognizers": recognizers,
             "probes": probes}
@@ -652,6 +680,26 @@ def gen_run(rng, tier):
                         "text": pge + f"\n=====\n{rng.choice(probes)} @@\n:::\nextra hint {rng.randint(0, 9)}\n"})
         else:
             ops.append(construct())
+    # scripted fragments that random drawing reaches too rarely
+    if rng.random() < 0.2:
+        c0 = dict(construct())
+        c0.pop("fault", None)
+        frag = rng.choice(["future-build-edit", "build-edit-touchcache", "future-import"])
+        f = rng.choice(files)
+        v = rng.randrange(len(versions))
+        if frag == "future-build-edit":
+            # a future-dated grammar file, a build, then an ordinary edit
+            pat = [{"op": "future", "file": f, "dt": gen_dt(rng)}, c0,
+                   {"op": "edit", "version": v, "dt": gen_dt(rng)}]
+        elif frag == "future-import":
+            pat = [{"op": "future", "file": files[-1], "dt": gen_dt(rng)}, c0,
+                   {"op": "touch", "file": files[0], "dt": gen_dt(rng)},
+                   {"op": "edit", "version": v, "dt": gen_dt(rng)}]
+        else:
+            pat = [c0, {"op": "edit", "version": v, "dt": gen_dt(rng)},
+                   {"op": "delete", "files": ["g.pgec"], "dt": gen_dt(rng)}]
+        at = rng.randint(0, len(ops))
+        ops[at:at] = pat
     last = construct()
     last.pop("fault", None)
     ops.append(last)
@@ -843,7 +891,7 @@ def sweep_scenarios(tier):
         s = pool.make_scenario(r, [fam])
         s["family"] = fam
         probes = [pool.gen_input(r, s, version=0, p_damage=0.3)[0] for _ in range(5)]
-        out.append((fam, {"versions": [{"g.pg": s["texts"][0]}], "pge": gen_pge(r, s),
+        out.append((fam, {"versions": [{"g.pg": s["texts"][0]}], "pge": gen_pge(r, s)[0],
                           "recognizers": s["recognizers"][:1], "probes": probes}))
     return out
 
